@@ -14,7 +14,7 @@ import sys
 
 REPO = os.environ.get("VERIF_REPO", "/repo")
 SRC = os.path.join(REPO, "src", "chuk_mcp")
-GEN = os.path.join(os.path.dirname(os.path.abspath(__file__)), "..", "coq", "theories", "Gen")
+GEN = os.path.join(os.environ.get("VERIF_WORK") or os.path.join(os.path.dirname(os.path.abspath(__file__)), ".."), "coq", "theories", "Gen")
 
 
 class TranslateError(Exception):
